@@ -287,7 +287,59 @@ fn run_caught<P: Property>(prop: &P, case: &P::Case) -> Outcome {
     }
 }
 
+// ---- watchdog: a case that does not come back is "inconclusive", quickly ---------------------
+// (without it a deadlocked case holds its shard until ./check's budget for the whole tier runs
+// out; the shard ends without a report, which ./check reports as inconclusive, exit 2)
+static CASE_STARTED_MS: std::sync::atomic::AtomicU64 = std::sync::atomic::AtomicU64::new(0);
+static CHILD_PID: std::sync::atomic::AtomicU32 = std::sync::atomic::AtomicU32::new(0);
+static CASE_DESC: std::sync::Mutex<String> = std::sync::Mutex::new(String::new());
+fn now_ms() -> u64 {
+    static T0: std::sync::OnceLock<Instant> = std::sync::OnceLock::new();
+    T0.get_or_init(Instant::now).elapsed().as_millis() as u64 + 1
+}
+fn watchdog_arm(desc: String) {
+    use std::sync::atomic::Ordering::SeqCst;
+    static STARTED: std::sync::Once = std::sync::Once::new();
+    STARTED.call_once(|| {
+        let limit_ms = std::env::var("VP_CASE_TIMEOUT_S").ok().and_then(|v| v.parse::<u64>().ok()).unwrap_or(300) * 1000;
+        let _ = std::thread::Builder::new().name("vp-watchdog".into()).spawn(move || loop {
+            std::thread::sleep(std::time::Duration::from_millis(500));
+            let started = CASE_STARTED_MS.load(SeqCst);
+            if started != 0 && now_ms().saturating_sub(started) > limit_ms {
+                let desc = CASE_DESC.lock().map(|d| d.clone()).unwrap_or_default();
+                eprintln!("inconclusive: a case did not finish within {} s (hang or deadlock); the shard stops here. case = {}", limit_ms / 1000, desc);
+                let pid = CHILD_PID.load(SeqCst);
+                if pid != 0 {
+                    let _ = Command::new("kill").arg("-9").arg(pid.to_string()).status();
+                }
+                std::process::exit(2);
+            }
+        });
+    });
+    if let Ok(mut d) = CASE_DESC.lock() {
+        *d = desc;
+    }
+    CASE_STARTED_MS.store(now_ms(), SeqCst);
+}
+fn watchdog_disarm() {
+    CASE_STARTED_MS.store(0, std::sync::atomic::Ordering::SeqCst);
+}
+
 fn run_isolated<P: Property>(prop: &P, case: &P::Case) -> Outcome {
+    let mut desc = serde_json::to_string(case).unwrap_or_default();
+    if desc.len() > 3000 {
+        let mut cut = 3000;
+        while !desc.is_char_boundary(cut) {
+            cut -= 1;
+        }
+        desc.truncate(cut);
+    }
+    watchdog_arm(desc);
+    let o = run_isolated_inner(prop, case);
+    watchdog_disarm();
+    o
+}
+fn run_isolated_inner<P: Property>(prop: &P, case: &P::Case) -> Outcome {
     match prop.isolation() {
         Isolation::Pure => run_caught(prop, case),
         Isolation::Thread => std::thread::scope(|s| {
@@ -324,11 +376,14 @@ fn run_child<P: Property>(_prop: &P, case: &P::Case) -> Outcome {
             }
         }
     };
+    CHILD_PID.store(ch.id(), std::sync::atomic::Ordering::SeqCst);
     {
         let mut stdin = ch.stdin.take().unwrap();
         let _ = stdin.write_all(serde_json::to_string(case).unwrap().as_bytes());
     }
-    let output = match ch.wait_with_output() {
+    let output = ch.wait_with_output();
+    CHILD_PID.store(0, std::sync::atomic::Ordering::SeqCst);
+    let output = match output {
         Ok(o) => o,
         Err(e) => {
             return Outcome {
